@@ -24,12 +24,13 @@ type ErrSrc struct {
 type errSet map[*ErrSrc]bool
 
 type errEngine struct {
-	p      *Prog
-	srcs   map[ssa.Value]*ErrSrc // interned sources by creating value
-	nilSrc *ErrSrc
-	ret    map[*ssa.Function][]errSet // per result index
-	param  map[*ssa.Parameter]errSet
-	dirty  bool
+	p          *Prog
+	srcs       map[ssa.Value]*ErrSrc // interned sources by creating value
+	nilSrc     *ErrSrc
+	ret        map[*ssa.Function][]errSet // per result index
+	param      map[*ssa.Parameter]errSet
+	dirty      bool
+	globalMemo map[*ssa.Global]string
 }
 
 func (p *Prog) errors() *errEngine {
@@ -192,9 +193,54 @@ func (e *errEngine) sentinelClass(g *ssa.Global) string {
 		return "NULL"
 	}
 	if strings.HasPrefix(g.Pkg.Pkg.Path(), modPath) {
+		if c := e.globalInitClass(g); c != "" {
+			return c
+		}
 		return "Sentinel:" + g.Pkg.Pkg.Name() + "." + g.Name()
 	}
 	return "Foreign"
+}
+
+// globalInitClass: a package-level error variable of the module that is
+// stored exactly once, by its package initialiser, has the class of the value
+// it is initialised with (fmt.Errorf("%w…", Sentinel) → that sentinel's class).
+func (e *errEngine) globalInitClass(g *ssa.Global) string {
+	if c, ok := e.globalMemo[g]; ok {
+		return c
+	}
+	if e.globalMemo == nil {
+		e.globalMemo = map[*ssa.Global]string{}
+	}
+	e.globalMemo[g] = "" // recursion guard
+	var stores []*ssa.Store
+	for fn := range e.p.AllFns {
+		if !inModule(fn) {
+			continue
+		}
+		for _, b := range fn.Blocks {
+			for _, ins := range b.Instrs {
+				if st, ok := ins.(*ssa.Store); ok && st.Addr == ssa.Value(g) {
+					stores = append(stores, st)
+				}
+			}
+		}
+	}
+	if len(stores) != 1 || stores[0].Parent().Name() != "init" || stores[0].Parent().Synthetic == "" {
+		return ""
+	}
+	set := e.classify(stores[0].Val, nil, map[ssa.Value]bool{})
+	cls := ""
+	for s := range set {
+		if s == e.nilSrc {
+			continue
+		}
+		if cls != "" && cls != s.Class {
+			return ""
+		}
+		cls = s.Class
+	}
+	e.globalMemo[g] = cls
+	return cls
 }
 
 func (e *errEngine) classify(v ssa.Value, fs []Fact, seen map[ssa.Value]bool) errSet {
